@@ -702,9 +702,11 @@ static int oracle(xmp_context c, struct context_data *ctx, int frameno, int rate
 	}
 	if (fi.total_size != XMP_MAX_FRAMESIZE)
 		FAIL("framesize:total", "total_size %d", fi.total_size);
-	if (ticks == XMP_MAX_FRAMESIZE / 2)
+	/* "unless the frame-size cap applies": the mixer clamped what libxmp_mixer_get_ticksize asked for
+	 * (upper cap / invalid), or the anticlick minimum of 1 << ANTICLICK_SHIFT frames was substituted */
+	if (libxmp_mixer_get_ticksize(rate, m->time_factor, m->rrate, fi.bpm) != ticks)
 		g_capped++;
-	else if (ticks == (1 << ANTICLICK_SHIFT))
+	else if (fi.bpm > 0 && (double)rate * m->time_factor * m->rrate / fi.bpm / 1000 < (double)(1 << ANTICLICK_SHIFT))
 		g_minclamp++;
 	else if (fi.frame_time > 0) {
 		/* ticks = floor(rate*X/1000), frame_time = floor(1000*X) us (X in ms): |ticks - rate*ft/1e6| < 1 + rate/1e6 */
